@@ -32,7 +32,7 @@ Theorem C05_monitor_reading :
   forall (key sigT ebytes digest typeurl vbytes cbytes extra : Type)
     (encode : content extra -> ebytes) (H : ebytes -> digest) (verify : key -> digest -> sigT -> bool)
     (decode : typeurl -> vbytes -> option cbytes) (Hv : cbytes -> N)
-    (g : snapshot) (id : nat) (e : env key) (req : option (wire sigT typeurl vbytes extra))
+    (g : snapshot) (id : N) (e : env key) (req : option (wire sigT typeurl vbytes extra))
     (res : result) (after g' : snapshot),
   monitor_handle encode H verify decode Hv g id e req res after = Some g' ->
   match res with
@@ -73,7 +73,7 @@ Theorem C05_handle_accept_sound :
   forall (key sigT ebytes digest typeurl vbytes cbytes extra : Type)
     (encode : content extra -> ebytes) (H : ebytes -> digest) (verify : key -> digest -> sigT -> bool)
     (decode : typeurl -> vbytes -> option cbytes) (Hv : cbytes -> N)
-    (e : env key) (st : state sigT typeurl vbytes extra) (id : nat)
+    (e : env key) (st : state sigT typeurl vbytes extra) (id : N)
     (req : option (wire sigT typeurl vbytes extra)) (dl : bool) (st' : state sigT typeurl vbytes extra),
   handle encode H verify decode Hv e st id req = (Accept, dl, st') ->
   exists w d m,
@@ -94,7 +94,7 @@ Theorem C05_accept_signed_by_source :
   (forall b b', H b = H b' -> b = b') ->
   (forall k c s, honest k -> verify k (H (encode c)) s = true ->
                  exists c0, signed k c0 /\ H (encode c0) = H (encode c)) ->
-  forall (e : env key) (st : state sigT typeurl vbytes extra) (id : nat)
+  forall (e : env key) (st : state sigT typeurl vbytes extra) (id : N)
     (req : option (wire sigT typeurl vbytes extra)) (dl : bool) (st' : state sigT typeurl vbytes extra),
   handle encode H verify decode Hv e st id req = (Accept, dl, st') ->
   exists w, req = Some w /\
@@ -114,7 +114,7 @@ Theorem C05_tamper_rejected :
   (forall b b', H b = H b' -> b = b') ->
   (forall k c s, honest k -> verify k (H (encode c)) s = true ->
                  exists c0, signed k c0 /\ H (encode c0) = H (encode c)) ->
-  forall (e : env key) (st : state sigT typeurl vbytes extra) (id : nat)
+  forall (e : env key) (st : state sigT typeurl vbytes extra) (id : N)
     (w : wire sigT typeurl vbytes extra) (p : part sigT extra) (k : key),
   In (Some p) (w_msg w :: w_just w) ->
   pubkey e (c_peer (p_c p)) = Some k -> honest k -> ~ signed k (p_c p) ->
@@ -132,7 +132,7 @@ Theorem C05_field_tamper_rejected :
   (forall c c', encode c = encode c' -> c = c') ->
   (forall b b', H b = H b' -> b = b') ->
   (forall k d s k' d', verify k d s = true -> verify k' d' s = true -> k = k' /\ d = d') ->
-  forall (e : env key) (st : state sigT typeurl vbytes extra) (id : nat)
+  forall (e : env key) (st : state sigT typeurl vbytes extra) (id : N)
     (w : wire sigT typeurl vbytes extra) (p : part sigT extra) (c' : content extra) (s : sigT),
   part_authentic encode H verify e p -> p_sig p = Some s ->
   (c_type (p_c p) <> c_type c' \/ c_duty (p_c p) <> c_duty c' \/ c_peer (p_c p) <> c_peer c' \/
@@ -148,7 +148,7 @@ Theorem C05_unresolved_rejected :
   forall (key sigT ebytes digest typeurl vbytes cbytes extra : Type)
     (encode : content extra -> ebytes) (H : ebytes -> digest) (verify : key -> digest -> sigT -> bool)
     (decode : typeurl -> vbytes -> option cbytes) (Hv : cbytes -> N)
-    (e : env key) (st : state sigT typeurl vbytes extra) (id : nat)
+    (e : env key) (st : state sigT typeurl vbytes extra) (id : N)
     (w : wire sigT typeurl vbytes extra) (p : part sigT extra) (h : N),
   In (Some p) (w_msg w :: w_just w) -> refs p h ->
   (forall v, In (Some v) (w_values w) -> vhash decode Hv v <> Some h) ->
@@ -164,7 +164,7 @@ Theorem C05_value_bytes_tamper_rejected :
     (encode : content extra -> ebytes) (H : ebytes -> digest) (verify : key -> digest -> sigT -> bool)
     (decode : typeurl -> vbytes -> option cbytes) (Hv : cbytes -> N),
   (forall c c', Hv c = Hv c' -> c = c') ->
-  forall (e : env key) (st : state sigT typeurl vbytes extra) (id : nat)
+  forall (e : env key) (st : state sigT typeurl vbytes extra) (id : N)
     (w : wire sigT typeurl vbytes extra) (p : part sigT extra) (h : N) (i : nat)
     (tu : typeurl) (b b' : vbytes) (c : cbytes),
   In (Some p) (w_msg w :: w_just w) -> refs p h ->
@@ -186,7 +186,7 @@ Theorem C05_reject_no_state_change :
   forall (key sigT ebytes digest typeurl vbytes cbytes extra : Type)
     (encode : content extra -> ebytes) (H : ebytes -> digest) (verify : key -> digest -> sigT -> bool)
     (decode : typeurl -> vbytes -> option cbytes) (Hv : cbytes -> N)
-    (e : env key) (st : state sigT typeurl vbytes extra) (id : nat)
+    (e : env key) (st : state sigT typeurl vbytes extra) (id : N)
     (req : option (wire sigT typeurl vbytes extra)) (r : reason) (dl : bool)
     (st' : state sigT typeurl vbytes extra),
   handle encode H verify decode Hv e st id req = (Reject r, dl, st') ->
@@ -205,7 +205,7 @@ Theorem C05_decide_value_exact :
     (encode : content extra -> ebytes) (H : ebytes -> digest) (verify : key -> digest -> sigT -> bool)
     (decode : typeurl -> vbytes -> option cbytes) (Hv : cbytes -> N),
   (forall c c', Hv c = Hv c' -> c = c') ->
-  forall (e : env key) (st : state sigT typeurl vbytes extra) (id : nat)
+  forall (e : env key) (st : state sigT typeurl vbytes extra) (id : N)
     (req : option (wire sigT typeurl vbytes extra)) (dl : bool) (st' : state sigT typeurl vbytes extra),
   handle encode H verify decode Hv e st id req = (Accept, dl, st') ->
   exists q d, buf0 st' d = buf0 st d ++ [q] /\ q_id q = id /\ req = Some (q_wire q) /\
